@@ -19,14 +19,25 @@ pub fn tol_of(rec: &Value, s: f64) -> f64 {
         k => s * k as f64,
     }
 }
+// `off`: the whole input is translated by that lattice vector (geometry far from the origin); every point that is reported is
+// translated back before it is quantised, so the judge sees the same numbers. (X + O) * s and x / s - O are exact in f64.
+thread_local! { static OFF: std::cell::Cell<[f64; 3]> = std::cell::Cell::new([0.0; 3]); }
+pub fn set_off(rec: &Value) {
+    let o = match rec.get("off") { Some(_) => { let v = gvi(rec, "off"); [v[0] as f64, v[1] as f64, v[2] as f64] } None => [0.0; 3] };
+    OFF.with(|c| c.set(o));
+}
+pub fn off() -> [f64; 3] { OFF.with(|c| c.get()) }
 pub fn pts2(rec: &Value, key: &str, s: f64) -> Vec<Point2> {
-    gvvi(rec, key).iter().map(|p| Point2::new(p[0] as f64 * s, p[1] as f64 * s)).collect()
+    let o = off();
+    gvvi(rec, key).iter().map(|p| Point2::new((p[0] as f64 + o[0]) * s, (p[1] as f64 + o[1]) * s)).collect()
 }
 pub fn pts3(rec: &Value, key: &str, s: f64) -> Vec<Point3> {
-    gvvi(rec, key).iter().map(|p| Point3::new(p[0] as f64 * s, p[1] as f64 * s, p[2] as f64 * s)).collect()
+    let o = off();
+    gvvi(rec, key).iter().map(|p| Point3::new((p[0] as f64 + o[0]) * s, (p[1] as f64 + o[1]) * s, (p[2] as f64 + o[2]) * s)).collect()
 }
 pub fn build2(rec: &Value) -> (f64, engeom::Result<Curve2>) {
     let s = scale_of(rec);
+    set_off(rec);
     // `from`: the curve is DERIVED - built from that vertex listing and then reversed (the record's `pts` describe the result)
     if rec.get("from").is_some() {
         return (s, Curve2::from_points(&pts2(rec, "from", s), tol_of(rec, s), gb(rec, "fc")).map(|c| c.reversed()));
@@ -35,6 +46,7 @@ pub fn build2(rec: &Value) -> (f64, engeom::Result<Curve2>) {
 }
 pub fn build3(rec: &Value) -> (f64, engeom::Result<Curve3>) {
     let s = scale_of(rec);
+    set_off(rec);
     (s, Curve3::from_points(&pts3(rec, "pts", s), tol_of(rec, s)))
 }
 
@@ -46,8 +58,9 @@ pub fn st2(q: &mut Q, st: Option<CurveStation2>, s: f64) -> Value {
             let d = st.direction();
             let n = st.normal();
             let mut qd = Q::new();
+            let o = off();
             json!({"some": true, "idx": st.index(), "fq": q.q(st.fraction(), QF),
-                   "p": [q.q(p.x / s, QP), q.q(p.y / s, QP), 0],
+                   "p": [q.q(p.x / s - o[0], QP), q.q(p.y / s - o[1], QP), 0],
                    "d": [qd.q(d.x, QD), qd.q(d.y, QD), 0],
                    "n": [qd.q(n.x, QD), qd.q(n.y, QD), 0], "dfin": qd.finite,
                    "la": q.q(st.length_along() / s, QP)})
@@ -61,8 +74,9 @@ pub fn st3(q: &mut Q, st: Option<CurveStation3>, s: f64) -> Value {
             let p = st.point();
             let d = st.direction();
             let mut qd = Q::new();
+            let o = off();
             json!({"some": true, "idx": st.index(), "fq": q.q(st.fraction(), QF),
-                   "p": [q.q(p.x / s, QP), q.q(p.y / s, QP), q.q(p.z / s, QP)],
+                   "p": [q.q(p.x / s - o[0], QP), q.q(p.y / s - o[1], QP), q.q(p.z / s - o[2], QP)],
                    "d": [qd.q(d.x, QD), qd.q(d.y, QD), qd.q(d.z, QD)], "dfin": qd.finite,
                    "n": [0,0,0],
                    "la": q.q(st.length_along() / s, QP)})
@@ -70,15 +84,18 @@ pub fn st3(q: &mut Q, st: Option<CurveStation3>, s: f64) -> Value {
     }
 }
 pub fn qpts2(q: &mut Q, pts: &[Point2], s: f64) -> Vec<Vec<i64>> {
-    pts.iter().map(|p| vec![q.q(p.x / s, QP), q.q(p.y / s, QP), 0]).collect()
+    let o = off();
+    pts.iter().map(|p| vec![q.q(p.x / s - o[0], QP), q.q(p.y / s - o[1], QP), 0]).collect()
 }
 pub fn qpts3(q: &mut Q, pts: &[Point3], s: f64) -> Vec<Vec<i64>> {
-    pts.iter().map(|p| vec![q.q(p.x / s, QP), q.q(p.y / s, QP), q.q(p.z / s, QP)]).collect()
+    let o = off();
+    pts.iter().map(|p| vec![q.q(p.x / s - o[0], QP), q.q(p.y / s - o[1], QP), q.q(p.z / s - o[2], QP)]).collect()
 }
 pub const QC: f64 = 640.0;
 /// projection of a curve used as a portion result: vertices (1/640 lattice unit), length, closedness
 pub fn piece(q: &mut Q, c: &Curve2, s: f64) -> Value {
-    let verts: Vec<Vec<i64>> = c.points().iter().map(|p| vec![q.q(p.x / s, QC), q.q(p.y / s, QC), 0]).collect();
+    let o = off();
+    let verts: Vec<Vec<i64>> = c.points().iter().map(|p| vec![q.q(p.x / s - o[0], QC), q.q(p.y / s - o[1], QC), 0]).collect();
     json!({"some": true, "verts": verts, "len": q.q(c.length() / s, QC), "closed": c.is_closed(), "n": c.count()})
 }
 pub fn opt_piece(q: &mut Q, c: &Option<Curve2>, s: f64) -> Value {
@@ -89,10 +106,12 @@ pub fn opt_piece(q: &mut Q, c: &Option<Curve2>, s: f64) -> Value {
 }
 pub const QR: f64 = 16384.0;
 pub fn qptsr2(q: &mut Q, pts: &[Point2], s: f64) -> Vec<Vec<i64>> {
-    pts.iter().map(|p| vec![q.q(p.x / s, QR), q.q(p.y / s, QR), 0]).collect()
+    let o = off();
+    pts.iter().map(|p| vec![q.q(p.x / s - o[0], QR), q.q(p.y / s - o[1], QR), 0]).collect()
 }
 pub fn qptsr3(q: &mut Q, pts: &[Point3], s: f64) -> Vec<Vec<i64>> {
-    pts.iter().map(|p| vec![q.q(p.x / s, QR), q.q(p.y / s, QR), q.q(p.z / s, QR)]).collect()
+    let o = off();
+    pts.iter().map(|p| vec![q.q(p.x / s - o[0], QR), q.q(p.y / s - o[1], QR), q.q(p.z / s - o[2], QR)]).collect()
 }
 fn lval(l2: i64, e: i64, s: f64) -> f64 {
     nudge(l2 as f64 / 2.0 * s, e)
@@ -284,7 +303,7 @@ pub fn exec(rec: &Value, st: &mut State) -> Value {
                             let e = vs[i + 1] - vs[i];
                             let ei = vs[(idx + 1).min(vs.len() - 1)] - vs[idx];
                             let back = vs[idx] + ei * f;
-                            json!({"some": true, "idx": idx, "p": [q.q(p.x / s, QP), q.q(p.y / s, QP), 0],
+                            json!({"some": true, "idx": idx, "p": [q.q(p.x / s - off()[0], QP), q.q(p.y / s - off()[1], QP), 0],
                                    "u": clampq(&mut q, (d.norm_squared() - 1.0) * p50), "par": clampq(&mut q, (d.x * e.y - d.y * e.x).abs() / e.norm() * p40),
                                    "fwd": d.dot(&e) > 0.0, "res": clampq(&mut q, (p - back).norm() / s * p30),
                                    "lares": clampq(&mut q, (st.length_along() - (lens[idx] + f * (lens[(idx + 1).min(lens.len() - 1)] - lens[idx]))).abs() / total * p40),
@@ -310,7 +329,7 @@ pub fn exec(rec: &Value, st: &mut State) -> Value {
                             let e = vs[i + 1] - vs[i];
                             let ei = vs[(idx + 1).min(vs.len() - 1)] - vs[idx];
                             let back = vs[idx] + ei * f;
-                            json!({"some": true, "idx": idx, "p": [q.q(p.x / s, QP), q.q(p.y / s, QP), q.q(p.z / s, QP)],
+                            json!({"some": true, "idx": idx, "p": [q.q(p.x / s - off()[0], QP), q.q(p.y / s - off()[1], QP), q.q(p.z / s - off()[2], QP)],
                                    "u": clampq(&mut q, (d.norm_squared() - 1.0) * p50), "par": clampq(&mut q, d.cross(&e).norm() / e.norm() * p40),
                                    "fwd": d.dot(&e) > 0.0, "res": clampq(&mut q, (p - back).norm() / s * p30),
                                    "lares": clampq(&mut q, (st.length_along() - (lens[idx] + f * (lens[(idx + 1).min(lens.len() - 1)] - lens[idx]))).abs() / total * p40),
@@ -349,6 +368,7 @@ pub fn exec(rec: &Value, st: &mut State) -> Value {
         "fill_gaps" => {
             let dim = gi(rec, "dim");
             let s = scale_of(rec);
+            set_off(rec);
             let m = gi(rec, "m2") as f64 / 2.0 * s;
             if dim == 2 {
                 let r = engeom::common::points::fill_gaps(&pts2(rec, "pts", s), m);
